@@ -103,7 +103,7 @@ macro_rules! c03_beta {
 c03_beta!(c03_beta_f64, f64, 1e-3);
 //@ id: c03_beta_f32
 //@ prop: C03
-//@ tier: quick
+//@ tier: thorough
 //@ cap: 1800
 //@ funcs: Beta::<f32>::new; Beta::<f32>::sample
 //@ bounds: alpha, beta in [1e-2, 1e4]; first trial (2 words), all 2^23 values of each Open01 draw
